@@ -6,12 +6,15 @@ import (
 )
 
 //verif:pkg ./xsync
-// args: waiters k, signals m (0 = one Broadcast), signaller holds L (0/1), cancel one waiter (0/1)
-//verif:case C16 quick VerifCondWakeups 1..2 0..2 0..1 0
-//verif:case C16 quick VerifCondWakeups 1..2 0..1 0 1
-//verif:case C16 thorough VerifCondWakeups 3 0..3 0..1 0
-//verif:case C16 thorough VerifCondWakeups 2 2..3 0..1 0..1
-//verif:case C16 thorough VerifCondWakeups 3 1 0 1
+// args: waiters k, signals m (0 = one Broadcast), signaller holds L (0/1), cancel one waiter (0/1),
+//       a Broadcast (and a Signal) with nobody waiting happened earlier (0/1)
+//verif:case C16 quick VerifCondWakeups 1..2 0..2 0..1 0 0
+//verif:case C16 quick VerifCondWakeups 1..2 0..1 0 1 0
+//verif:case C16 quick VerifCondWakeups 1 0..1 0 0 1
+//verif:case C16 thorough VerifCondWakeups 3 0..3 0..1 0 0
+//verif:case C16 thorough VerifCondWakeups 2 2..3 0..1 0..1 0
+//verif:case C16 thorough VerifCondWakeups 3 1 0 1 0
+//verif:case C16 thorough VerifCondWakeups 2 0..1 0..1 0 1
 
 // vLocker: a Locker that records which goroutines have released it at least once (= have
 // entered Wait and released the lock) and who owns it.
@@ -51,9 +54,13 @@ func (l *vLocker) entered() int {
 // (Broadcast: all) have returned nil, a waiter that returned nil holds the lock at return, a
 // waiter whose context was cancelled returns the context's error without the lock, and a
 // cancelled waiter never swallows the wakeup another waiter needs.
-func VerifCondWakeups(k int, m int, holdL int, cancelOne int) {
+func VerifCondWakeups(k int, m int, holdL int, cancelOne int, earlier int) {
 	L := &vLocker{owner: -1}
 	c := NewContextCond(L)
+	if earlier == 1 {
+		// history before anybody waits: the condition variable must behave the same afterwards
+		c.Broadcast()
+	}
 	const (
 		pending = iota
 		woke
